@@ -12,4 +12,16 @@ pub proof fn lemma_first_hit_unique(i: u64, t: nat)
     assert(first_hit(i, t));
     if t0 < t { assert(attempt(i, t0) is None); } else if t < t0 { assert(attempt(i, t) is None); }
 }
-
+// hash-to-field by try-and-increment (IPA compute_random_oracle_challenge): attempt t hashes  bytes || t ; the challenge is the first field element obtained.
+// The WHOLE byte string enters every attempt.
+pub open spec fn ro_attempt(b: Seq<u8>, t: nat) -> Option<Fr> { frf(dig(b + le8(t as u64))) }
+pub open spec fn ro_first(b: Seq<u8>, t: nat) -> bool { ro_attempt(b, t) is Some && forall|t2: nat| t2 < t ==> ro_attempt(b, t2) is None }
+pub open spec fn ro_chal(b: Seq<u8>) -> FS { let t = choose|t: nat| #[trigger] ro_first(b, t); ro_attempt(b, t)->Some_0@ }
+pub proof fn lemma_ro_first_unique(b: Seq<u8>, t: nat)
+    requires ro_first(b, t)
+    ensures ro_chal(b) == ro_attempt(b, t)->Some_0@
+{
+    let t0 = choose|t0: nat| #[trigger] ro_first(b, t0);
+    assert(ro_first(b, t));
+    if t0 < t { assert(ro_attempt(b, t0) is None); } else if t < t0 { assert(ro_attempt(b, t) is None); }
+}
